@@ -247,6 +247,7 @@ def _layout_states():
 
 
 def symbol_layout_rule(ctx, rid):
+    ctx.mark('layout', rid)
     ctx.rule(rid, 'the inline accessors of SymbolString agree on the telegram layout: the length byte NN is at offset 4 of a master '
              'string and 0 of a slave string, the data starts behind it at 5 / 1. Decided by evaluating each accessor body '
              '(typed AST, integer widths as compiled) on every state of a small model (both kinds, stored lengths 0..end+2, '
@@ -432,6 +433,7 @@ def r11(ctx):
 
 
 def file_state_rule(ctx, rid):
+    ctx.mark('file-state', rid)
     ctx.rule(rid, 'a definition means what its own file says: MappedFileReader::readFromStream starts every file with empty per-file '
              'state - each non-const container member of MappedFileReader (column names, last defaults, last field defaults) '
              'is cleared on every path before the first line is read; a container that survives hands the defaults of an '
